@@ -23,8 +23,8 @@ def add(pid, engine, text, note, tech):
     CHECKS[pid] = dict(engine=engine, text=text, note=note, tech=tech)
 
 add("C01", "vsched", "Two levels. Scheduler: all interleavings (sleep-set DFS, unbounded) of caller, scheduler loop and workers of the real scheduler.go (rewritten onto a controlled-scheduler shim) for every DAG with <=3 jobs (quick; <=4 jobs and N=3 thorough), duplicate dependency lists, every ok/error vector, N in {1,2}, both error modes. Generated code: flows in every permutation of the task listing (with and without predicates), multi-result providers (a dependency listed twice), Parallel End hooks. Oracle on vector clocks at both levels: the start of a job / user function happens-after the end of every dependency / provider / its own predicate, the dependency succeeded, nothing starts twice.", TB_SCHED, T_SCHED)
-add("C02", "genmc", "Every well-formed flow structure with <=2 tasks over <=2 types (thorough: 3 tasks/3 types), all listing orders of named shapes, type spellings, task expression forms, enclosing contexts, predicates: compiled by the cff binary of the working tree, run on the rewritten scheduler over all interleavings for N in {1,2} (and the default limit); each execution compared with the reference dataflow (each task once, exact argument values, Results), the set of outcomes over all schedules must be a singleton; two concurrent instances of the same flow.", TB_GEN, T_GEN)
-add("C03", "vsched", "Two levels. Scheduler: largest set of pairwise HB-concurrent job bodies <= limit in every execution; N barrier jobs that can only finish if N bodies run at once never deadlock, also after Goexit jobs (incl. a job that cancels its own context before exiting); thread census must not grow with the number of jobs; default limit max(GOMAXPROCS,4). Generated code: over-limit barriers (limit+1 user functions that only return if all run at once - flow tasks, Parallel tasks, slice elements; default limit 4 and Concurrency(2)) must never open; capacity barriers (two independent functions next to Slice/Map End hooks and predicates must meet); predicates counted as user functions; HB-overlap monitor in every generated-code execution of every check.", TB_SCHED, T_SCHED)
+add("C02", "genmc", "Every well-formed flow structure with <=2 tasks over <=2 types (thorough: 3 tasks/3 types), all listing orders of named shapes, type spellings, task expression forms, enclosing contexts, predicates: compiled by the cff binary of the working tree, run on the rewritten scheduler over all interleavings for N in {1,2} (and the default limit); each execution compared with the reference dataflow (each task once, exact argument values, Results), the set of outcomes over all schedules must be a singleton; two concurrent instances of the same flow; mutually assignable value types (named interfaces with one method set) and parameter lists that repeat a type, so that an argument bound to the wrong provider still compiles and only the values tell; several cff.Results / cff.Params options per directive.", TB_GEN, T_GEN)
+add("C03", "vsched", "Two levels. Scheduler: largest set of pairwise HB-concurrent job bodies <= limit in every execution; N barrier jobs that can only finish if N bodies run at once never deadlock, also after Goexit jobs (incl. a job that cancels its own context before exiting); thread census must not grow with the number of jobs; default limit max(GOMAXPROCS,4). Generated code: over-limit barriers (limit+1 user functions that only return if all run at once - flow tasks, Parallel tasks, slice elements; default limit 4 and Concurrency(2)) must never open; capacity barriers (two independent functions next to Slice/Map End hooks and predicates must meet); predicates counted as user functions; HB-overlap monitor and a goroutine bound per directive (scheduler loop + starter + limit workers + one replacement per Goexit) in every generated-code execution of every check; programs with a user emitter and ticks. Boundary probes (not exhaustive, listed separately in the evidence): limits 5..129 and one more than every integer literal of the scheduler sources, N functions that must run at once, first K schedules of the zero-preemption search.", TB_SCHED, T_SCHED)
 add("C04", "genmc", "Flow shapes, predicate/fallback flows and all Parallel programs with <=2 items x every subset of <=2 panicking user functions (task, predicate, slice/map function, End hook) x panic value kinds {string,error,runtime error,struct} x fail-fast/ContinueOnError x N in {1,2}, all interleavings: no thread dies, errors.As yields *cff.PanicError with the injected value, fallbacks absorb, independent branches and a second concurrent directive unaffected.", TB_GEN, T_GEN)
 add("C05", "vsched", "Two levels. Scheduler: outcomes {ok,error,Goexit,cancel,gate}, canceller thread, second enqueuing caller, emitter ticks, an emitter that kills the loop goroutine, own-context Goexit, default-limit scenarios, enqueue pressure. Generated code: flow shapes, predicate/fallback flows, Parallel programs, default-limit programs x {ok, failing subsets, panic, Goexit, cancel inside / before / from another thread, a function still running while another fails, two concurrent instances}. Oracle: no terminal state with the caller blocked, no escaped panic, no step-horizon overrun.", TB_SCHED, T_SCHED)
 add("C06", "vsched", "Same executions as C05 at both levels, judged at the terminal state after gated functions were released: every thread the scheduler created has exited; two consecutive runs in one execution; default concurrency with a failure while other jobs are in flight.", TB_SCHED, T_SCHED)
@@ -34,12 +34,12 @@ add("C09", "vsched+genmc", "Cancellation before the call, inside a job, and from
 add("C10", "genmc", "All Parallel programs with <=3 items from {Task, Tasks(2), Slice, Map} x signature variants x End hooks x collection contents (nil, empty, 1..3 elements) x N in {1,2,default}, map iteration order chosen by the explorer, all interleavings: each function/element/entry invoked exactly once with (i,s[i]) / (k,m[k]); End hook once, happens-after every element call of its collection, never after a failed or panicked element.", TB_GEN, T_GEN)
 add("C11", "genmc", "Flow shapes x every placement of predicates (no input / shared input / own input / upstream) and FallbackWith on <=2 tasks x predicate outcomes {true,false,panic} x task outcomes {ok,error,panic}, all interleavings: reference semantics for invocation, argument values, zero values, fallback substitution; predicates at most once.", TB_GEN, T_GEN)
 add("C12", "genmc-race", "The Go race detector runs under the controlled scheduler on every explored schedule. Scheduler level: the C12 scenario family (two/three-job graphs, failures, cancellation with gated jobs, two threads enqueuing concurrently) in a race build of the scheduler harness. Generated-code level: flow shapes incl. a dependency listed twice, instrumented flows, predicate/fallback flows, Parallel programs x outcomes {ok, error, panic} x early return by failure and by cancellation with another function still running (gated, released without a happens-before edge from the caller) x an identifier argument reassigned by the caller after an early return x two concurrent directives sharing an emitter stack. Only the repository's code and the generated code are instrumented; the native hand-offs are hidden (runtime.RaceDisable) and each thread emits exactly the acquire/release operations Go's runtime performs for the channel/close/context operation it executed; the annotations are bound to the Go memory model by an 18-program race litmus suite run first. A report is confirmed by replaying its schedule in fresh processes.", TB_GEN + " For C12 additionally: the ThreadSanitizer runtime (bounded shadow/trace state: a racing pair is not reported on every run of the same schedule, so a clean run is evidence for the explored schedules only, never a proof); teardown of abandoned executions is serialised in view of the detector.", "stateless model checking of the implementation with the Go race detector as per-execution oracle: exhaustive sleep-set DFS over all interleavings under a controlled scheduler, happens-before of the modelled primitives re-created by race annotations")
-add("C13", "genmc-static", "Every well-formed graph-family program, every spelling/context feature program (imports, aliases, shadowing identifiers, enclosing contexts, hand-written corner cases), the programs of the run-time families and the accepted assignability pairs, in 4 tool configurations (base/source-map x auto-instrument): cff exit status, diagnostics, parse + compile of every output file without the cff tag, AST scan for leftover directive calls, no Go panic of the tool.", TB_STATIC, T_STATIC)
+add("C13", "genmc-static", "Every well-formed graph-family program, every spelling/context feature program (imports, aliases, shadowing identifiers, enclosing contexts, hand-written corner cases), the programs of the run-time families and the accepted assignability pairs, in 4 tool configurations (base/source-map x auto-instrument), plus modifier mode for the programs it supports (the MOD family of C20, incl. types that reach a flow only through another package's function signatures): cff exit status, diagnostics, parse + compile of every output file without the cff tag, AST scan for leftover directive calls, no Go panic of the tool.", TB_STATIC, T_STATIC)
 add("C14", "genmc-static", "All flow structures with <=2 tasks over <=2 types (thorough 3) incl. every ill-formed one, all 3-task unary flows (cycles at every distance), predicates, all listing orders of named shapes, and the full 13x13 Slice/Map element-vs-parameter assignability lattice (go/types as judge): cff accepts iff the reference rules do; rejected => non-zero exit, diagnostic naming the file, no output for it.", TB_STATIC, T_STATIC)
-add("C15", "genmc", "Programs whose every directive argument is wrapped in a logging identity function (flows, all listing orders of a shape, predicates/fallbacks, emitters, instrument names, Parallel incl. Slice/Map collections and End hooks, non-constant Concurrency/ContinueOnError) and programs whose enclosing function declares identifiers named like generated ones, all interleavings: arguments evaluated exactly once, in source order, on the calling thread, happens-before every user function start; output compiles and binds to the user's variables.", TB_GEN, T_GEN)
-add("C16", "genmc-x", "(a) every build-constraint header inside the bound (all //go:build expressions of depth<=2 over {cff,a,b}; all // +build lines with <=2 groups of <=2 terms; 2- and 3-line forms; both syntaxes; comment-split headers) goes through the real writeInvertedCffTag (driver injected into the cff module by overlay) and go/build.MatchFile decides, for all 8 tag assignments, that the output is selected exactly when the source is selected with cff flipped; headers that select the file under the cff tag also go end to end through the cff binary; (b) source vs output of every accepted program of the spelling/context families with directive spans masked: all other declarations token-identical, imports only added; (c) every non-empty subset of a package's files x default/explicit output x {base,source-map} processed in a fresh copy of the tree hashed before/after, TMPDIR watched: only documented output paths appear.", TB_STATIC, T_STATIC)
-add("C17", "genmc-x", "(a) the cff tool is rebuilt from the working tree with every range-over-map of the generator and of x/tools' typeutil.Map under control of a parent process, which enumerates every iteration order at every map iteration the tool performs on each program (all n! for n<=4 keys; reversal/rotations/transpositions above; one deviation at a time, thorough: pairs) and requires byte-identical output in base and source-map modes; (b) all -file subsets x explicit/default outputs x whole package yield identical bytes per source file, every file of a large package alone equals the whole-package result; (c) two fresh processes per package and mode agree and the random line-reset token never survives.", TB_STATIC, "explicit-state enumeration of the generator's nondeterminism (map iteration orders as environment answers, deviation-bounded) and of invocation histories (file subsets), on the real cff tool rebuilt with controlled map iteration")
-add("C18", "genmc", "Instrumented flows (every subset of tasks instrumented x InstrumentFlow x emitters {1,2,nested stack}) and Parallels x outcomes {ok,error,panic,predicate false} over all interleavings with recording emitters: exactly one Success/Error (Error carrying the returned error) then one Done last; one matching outcome event + one TaskDone per invocation; TaskSkipped once for uninvoked tasks on nil; every emitter of a stack sees the same sequence.", TB_GEN, T_GEN)
+add("C15", "genmc", "Programs whose every directive argument is wrapped in a logging identity function (flows, all listing orders of a shape, predicates/fallbacks, emitters with and without anything instrumented, instrument names, Parallel incl. Slice/Map collections and End hooks, non-constant Concurrency/ContinueOnError) and programs whose enclosing function declares identifiers named like generated ones, all interleavings: arguments evaluated exactly once, in source order, on the calling thread, happens-before every user function start; output compiles and binds to the user's variables.", TB_GEN, T_GEN)
+add("C16", "genmc-x", "(a) every build-constraint header inside the bound (all //go:build expressions of depth<=2 over {cff,a,b}; all // +build lines with <=2 groups of <=2 terms; 2- and 3-line forms; both syntaxes; comment-split headers) goes through the real writeInvertedCffTag (driver injected into the cff module by overlay) and go/build.MatchFile decides, for all 8 tag assignments, that the output is selected exactly when the source is selected with cff flipped; headers that select the file under the cff tag also go end to end through the cff binary; (b) source vs output of every accepted program of the spelling/context families with directive spans masked: all other declarations token-identical, imports only added; (c) every non-empty subset of a package's files x default/explicit output x {base,source-map} processed in a fresh copy of the tree hashed before/after, TMPDIR watched: only documented output paths appear; explicit output paths in 10 spellings (comma, space, '=', non-ASCII, hidden, leading dash, nested, absolute), whole module (./...) with equal file names in two packages.", TB_STATIC, T_STATIC)
+add("C17", "genmc-x", "(a) the cff tool is rebuilt from the working tree with every range-over-map of the generator and of x/tools' typeutil.Map under control of a parent process, which enumerates every iteration order at every map iteration the tool performs on each program (all n! for n<=4 keys; reversal/rotations/transpositions above; one deviation at a time, thorough: pairs) and requires byte-identical output in base and source-map modes; (b) all -file subsets x explicit/default outputs x whole package yield identical bytes per source file, every file of a large package alone equals the whole-package result; a package alone vs the whole module (an output produced by one invocation must be produced by every invocation covering the file); every invocation repeated in a copy of the tree at another path; (c) two fresh processes per package and mode agree and the random line-reset token never survives.", TB_STATIC, "explicit-state enumeration of the generator's nondeterminism (map iteration orders as environment answers, deviation-bounded) and of invocation histories (file subsets), on the real cff tool rebuilt with controlled map iteration")
+add("C18", "genmc", "Instrumented flows (every subset of tasks instrumented x InstrumentFlow x emitters {1,2,nested stack}) and Parallels x outcomes {ok,error,panic,predicate false, context done before the call, context cancelled by a task} over all interleavings with recording emitters: exactly one Success/Error (Error carrying the returned error) then one Done last; one matching outcome event + one TaskDone per invocation; TaskSkipped once for uninvoked tasks on nil; every emitter of a stack sees the same sequence.", TB_GEN, T_GEN)
 add("C19", "vsched+genmc", "Scheduler level: scenarios with a recording emitter and a tick budget of 1..3: every emitted State satisfies the stated arithmetic, Pending/Waiting bounded by the jobs whose Enqueue began happens-before the report, no report after a normal Wait return. Generated-code level: flows and a Parallel with a user emitter (explicit and default Concurrency, predicates, a failing task), tick budget 1..2, all interleavings: the SchedulerState values the user's emitter receives through the root package's adapter satisfy the same arithmetic against the limit the directive configured and the number of jobs of the flow.", TB_GEN, T_GEN)
 add("C20", "genmc-static", "(a) every accepted program of the C13 families (incl. hand-written inputs such as a 70 kB line): comment-free token streams of base and source-map output are identical and both modes agree on acceptance. (b) the MOD family (flows from Params, Results, Concurrency and plain Tasks: named shapes, task listing orders, type spellings, task forms, import situations, differently spelled identical types) is generated in base and in modifier mode, both are compiled and explored over all interleavings for every single failing and single panicking task; every modifier-mode execution is judged by the reference oracles and the set of observable outcomes per scenario must equal the base-mode set.", TB_STATIC, T_STATIC)
 
